@@ -97,6 +97,10 @@ fn run_proc(sh: &mut Shell, line: &str, tty: bool,
     if let Some(cr) = crate::verif_hooks::scripted_run_proc(sh, line) {
         return cr;
     }
+    #[cfg(cicada_verif)]
+    if let Some(cr) = crate::verif_hooks::scripted_run_proc_seq(sh, line) {
+        return cr;
+    }
     let log_cmd = !sh.cmd.starts_with(' ');
     match CommandLine::from_line(line, sh) {
         Ok(cl) => {
